@@ -40,6 +40,14 @@ fn main() {
     rayon::ThreadPoolBuilder::new().num_threads(threads).stack_size(16 << 20).build_global().ok();
     let code = match args[1].as_str() {
         "run" => {
+            // panics of the subject are caught per evaluation and reported by the engines; keep stderr readable
+            std::panic::set_hook(Box::new(|info| {
+                let loc = info.location().map(|l| format!("{}:{}", l.file(), l.line())).unwrap_or_default();
+                engine::LAST_PANIC_LOC.with(|l| *l.borrow_mut() = loc.clone());
+                if loc.starts_with("src/") {
+                    eprintln!("panic in harness at {}: {}", loc, info);
+                }
+            }));
             let id = args.get(2).map(|s| s.as_str()).unwrap_or("");
             let tier = args.get(3).map(|s| s.as_str()).unwrap_or("quick");
             match id {
